@@ -11,6 +11,7 @@ import Driver.CableDual
 import Driver.SolveJaxley
 import Driver.InitStates
 import Driver.Sim
+import Driver.AssembleJaxley
 open Driver
 
 def handle (line : String) : String :=
@@ -35,6 +36,7 @@ def handle (line : String) : String :=
   | "jsolve" :: rest => handleJSolve rest
   | "initst" :: rest => handleInitSt rest
   | "sim" :: rest => handleSim rest
+  | "jasm" :: rest => handleJAsm rest
   | "ping" :: _ => "pong"
   | _ => "bad-op"
 
